@@ -4,6 +4,7 @@ import (
 	"bytes"
 	"encoding/binary"
 	"fmt"
+	"sort"
 
 	"github.com/canopy-network/canopy/fsm"
 	"github.com/canopy-network/canopy/lib"
@@ -206,8 +207,8 @@ func (w *world) authAttack(g *genTx) {
 	if bz == nil {
 		return
 	}
-	w.mustFail[string(bz)] = "C05|unauthorized-" + kind
-	w.c.Fault("auth_" + kind)
+	w.mustFail[string(bz)] = "C05|unauthorized-" + firstWordParen(kind)
+	w.c.Fault("auth_" + firstWordParen(kind))
 	w.submitRaw(bz, "UNAUTHORIZED("+kind+") variant of: "+g.desc)
 }
 
@@ -218,6 +219,15 @@ func (w *world) authCombo(gs []*genTx) {
 	c := w.c
 	var batch [][]byte
 	desc := ""
+	// the mempool orders by fee (ties: arrival): give the roles in that order
+	var live []*genTx
+	for _, g := range gs {
+		if g != nil && g.tx != nil {
+			live = append(live, g)
+		}
+	}
+	sort.SliceStable(live, func(i, j int) bool { return live[i].tx.Fee > live[j].tx.Fee })
+	gs = live
 	for i, g := range gs {
 		if g == nil {
 			continue
